@@ -7,6 +7,8 @@
 -/
 import PySpikeVerif.Model.Api
 import PySpikeVerif.Proofs.Basic
+import PySpikeVerif.Proofs.MultiLaws
+import PySpikeVerif.Proofs.PyxEq
 
 namespace PySpike.C05
 open PySpike
@@ -36,5 +38,49 @@ theorem order_is_profile_ratio (kw : Kw) (a b : Train) :
 /-- whole-recording averages divide the integral by the length of the support -/
 theorem avrg_none_pwc (f : Pwc) : pwcAvrgKw f none = some (f.integralAll / (lastD f.x 0 - f.x.headD 0)) := rfl
 theorem avrg_none_pwl (f : Pwl) : pwlAvrgKw f none = some (f.integralAll / (lastD f.x 0 - f.x.headD 0)) := rfl
+
+/-! ### any number of trains (Proofs/MultiLaws.lean, work package B5) -/
+
+/-- multivariate ISI distance (whole recording) = average of the multivariate ISI profile, for every
+    list of ≥ 2 valid trains on a common interval and every keyword record -/
+theorem isi_multi_distance_is_profile_average (kw : Kw) (L : List Train) (ts te : Q)
+    (hi : kw.interval = none) (hv : B5_ValidList ts te L) (h2 : 2 ≤ L.length) :
+    isiDistanceMulti kw none L = some ((isiProfileMulti kw none L).avrgAll) :=
+  isiDistanceMulti_eq_avrg_profile_anyRecon kw L ts te hi hv h2
+
+/-- multivariate SPIKE distance = average of the multivariate SPIKE profile, given that the pair
+    profiles are well formed on the common interval (well-formedness of the SPIKE scan output is
+    part of work package B4) — `_partial` in that sense -/
+theorem spike_multi_distance_is_profile_average_partial (kw : Kw) (L : List Train) (ts te : Q)
+    (hr : kw.recon = false) (hi : kw.interval = none) (h2 : 2 ≤ L.length)
+    (hleaf : ∀ p ∈ pairsOf (List.range L.length),
+      B5_PwlOn ts te (spikeProfileBi kw (tr L p.1) (tr L p.2))) :
+    spikeDistanceMulti kw none L = some ((spikeProfileMulti kw none L).avrgAll) :=
+  spikeDistanceMulti_eq_avrg_profile kw L ts te hr hi h2 hleaf
+
+/-- multivariate SPIKE-Sync = total coincidences / total multiplicity of the multivariate profile
+    (any list of ≥ 2 trains, any keywords, reconciliation on or off) -/
+theorem sync_multi_is_profile_ratio (kw : Kw) (L : List Train)
+    (hi : kw.interval = none) (h2 : 2 ≤ L.length) :
+    spikeSyncMulti kw none L = some (syncRatio ((syncProfileMulti kw none L).integralAll)) :=
+  spikeSyncMulti_eq_ratio_profile kw L hi h2
+
+/-- multivariate spike-train order = summed values / summed multiplicities of the multivariate
+    order profile (default reconciliation) -/
+theorem order_multi_is_profile_ratio (kw : Kw) (L : List Train) (hr : kw.recon = true)
+    (h2 : 2 ≤ L.length) :
+    spikeTrainOrderMulti kw none L = syncRatio ((orderProfileMulti kw none L).integralAll) :=
+  spikeTrainOrderMulti_eq_ratio_profile kw L hr h2
+
+/-! ### compiled kernels importable: the single-pass routines equal averaging the profile
+    (Proofs/PyxEq.lean, work package B3; in ℚ — the IEEE NaN of finding F12 excepted) -/
+theorem isi_single_pass_is_profile_average (s1 s2 : List Q) (ts te m : Q) :
+    isiDistancePyx s1 s2 ts te m = (Pwc.mk (isiProfile s1 s2 ts te m).1 (isiProfile s1 s2 ts te m).2).avrgAll :=
+  B3_isiDistancePyx_eq_avrg_all s1 s2 ts te m
+theorem spike_single_pass_is_profile_average (t1 t2 : List Q) (ts te m : Q) (ri : Bool) :
+    spikeDistancePyx t1 t2 ts te m ri
+      = (Pwl.mk (spikeProfile t1 t2 ts te m ri).1 (spikeProfile t1 t2 ts te m ri).2.1
+                (spikeProfile t1 t2 ts te m ri).2.2).avrgAll :=
+  spikeDistancePyx_eq_avrg_py t1 t2 ts te m ri
 
 end PySpike.C05
